@@ -249,9 +249,11 @@ func MakeFullWrapper(i any) *Object {
 // NewArrayBuffer creates a JavaScript ArrayBuffer from a byte slice.
 func NewArrayBuffer(b []byte) *Object {
 	slice := InternalObject(b)
-	offset := slice.Get("$offset").Int()
+	array := slice.Get("$array")
+	// The backing array may itself be a view that starts inside its buffer.
+	offset := array.Get("byteOffset").Int() + slice.Get("$offset").Int()
 	length := slice.Get("$length").Int()
-	return slice.Get("$array").Get("buffer").Call("slice", offset, offset+length)
+	return array.Get("buffer").Call("slice", offset, offset+length)
 }
 
 // M is a simple map type. It is intended as a shorthand for JavaScript objects (before conversion).
